@@ -40,6 +40,7 @@ struct Node {
     addr: String,
     conns: HashMap<u32, TcpClient>,
     tokens: Vec<String>,
+    raws: HashMap<u32, tokio::net::TcpStream>,
     maintain_cmd: Option<MaintainMessagesCommand>,
     nowait: bool,
     dir: String,
@@ -303,6 +304,7 @@ pub async fn run() {
         tokens: std::fs::read_to_string(format!("{dir}.tokens"))
             .map(|t| t.lines().map(|l| l.to_string()).collect())
             .unwrap_or_default(),
+        raws: HashMap::new(),
         maintain_cmd,
         nowait,
         dir,
@@ -500,6 +502,54 @@ impl Node {
                     }
                     None => "ok 0".into(),
                 }
+            }
+            "raw-open" => {
+                match tokio::net::TcpStream::connect(&self.addr).await {
+                    Ok(st) => {
+                        self.raws.insert(f[1].parse().unwrap(), st);
+                        "ok".into()
+                    }
+                    Err(_) => "err connect".into(),
+                }
+            }
+            "raw-send" => {
+                // raw-send <r> <hex> : write raw bytes, then try to read one response header
+                use tokio::io::{AsyncReadExt, AsyncWriteExt};
+                let id: u32 = f[1].parse().unwrap();
+                let Some(st) = self.raws.get_mut(&id) else {
+                    return "err no-raw-connection".into();
+                };
+                let bytes = hex_decode(f.get(2).unwrap_or(&""));
+                if st.write_all(&bytes).await.is_err() {
+                    return "closed".into();
+                }
+                let _ = st.flush().await;
+                let mut hdr = [0u8; 8];
+                match tokio::time::timeout(
+                    std::time::Duration::from_millis(150),
+                    st.read_exact(&mut hdr),
+                )
+                .await
+                {
+                    Err(_) => "timeout".into(),
+                    Ok(Err(_)) => "closed".into(),
+                    Ok(Ok(_)) => {
+                        let status = u32::from_le_bytes(hdr[0..4].try_into().unwrap());
+                        let len = u32::from_le_bytes(hdr[4..8].try_into().unwrap());
+                        let mut body = vec![0u8; (len as usize).min(1 << 20)];
+                        let _ = tokio::time::timeout(
+                            std::time::Duration::from_millis(150),
+                            st.read_exact(&mut body),
+                        )
+                        .await;
+                        format!("resp {status} {len}")
+                    }
+                }
+            }
+            "raw-close" => {
+                self.raws.remove(&f[1].parse::<u32>().unwrap());
+                tokio::time::sleep(std::time::Duration::from_millis(20)).await;
+                "ok".into()
             }
             "scan-str" => {
                 let hits = scan(&self.dir, f[1].as_bytes());
